@@ -31,6 +31,9 @@ if os.path.join(REPO, "src") not in sys.path:
     sys.path.insert(0, os.path.join(REPO, "src"))
 
 import translate  # noqa: E402
+import logging  # noqa: E402
+
+logging.disable(logging.CRITICAL)  # nxslib logs every rejected frame; keep check output readable
 
 
 def log(*a):
